@@ -7,7 +7,8 @@ from vf.ref import cea608 as E
 ID = 'C06'
 RULE = ('pop-on streams of 1-6 captions (drop / non-drop timecode, single / doubled codes, EDM inline before '
         'EOC, on its own line 0..900 frames later, or absent; inter-line gaps 0-8, 10, 40, 100, 900 frames; '
-        'frame fields up to :29 with long lines carrying past it; offsets 0, 1, 2, 3600 s) read with '
+        'frame fields up to :29 with long lines carrying past it; offsets 0, 1, 2, 3600 s, streams that begin '
+        'before the offset so that instants are floored at zero) read with '
         'SCCReader.read(offset=...). A sequential reference model in Fraction computes every start / end; '
         '1 us tolerance. Non-trivial: >= 2 captions, a non-zero offset or an inline EDM.')
 ANCHORS = ['pycaption.scc:SCCReader._translate_word', 'pycaption.scc:_SccTimeTranslator.get_time',
@@ -18,7 +19,8 @@ ANCHORS = ['pycaption.scc:SCCReader._translate_word', 'pycaption.scc:_SccTimeTra
            'pycaption.scc:fix_last_captions_without_ending', 'pycaption.scc:SCCReader.read']
 REQUIRE = {'streams_drop': 50, 'streams_nondrop': 50, 'streams_with_offset': 50, 'gaps_closed': 20,
            'gaps_exactly_five_frames': 3, 'gaps_open': 20, 'last_caption_four_seconds': 50,
-           'flash_cue_streams': 10, 'times_compared': 500, 'captions_split_same_times': 10}
+           'flash_cue_streams': 10, 'times_compared': 500, 'captions_split_same_times': 10,
+           'streams_beginning_before_the_offset': 20}
 CW = Fraction(1001000, 30)        # one code word at 29.97 fps, in microseconds
 
 
@@ -30,6 +32,9 @@ def gen(rng):
         c['gap'] = rng.choice([0, 0, 1, 2, 3, 4, 5, 6, 7, 8, 10, 40, 100, 900])
     offset = rng.choice([0, 0, 0, 1, 2, 3600])
     start_frame = offset * 30 + rng.choice([0, 1, 15, 28, 29, 30, 59, 1799, 1800, 107999, 108000, 2589410])
+    if offset and rng.random() < 0.3:
+        # the stream begins before the offset: the first instants are floored at zero
+        start_frame = rng.choice([0, 1, 15, 29, 30, 45, offset * 30 - 20, offset * 30 - 1])
     return {'prog': prog, 'offset': offset, 'start_frame': start_frame,
             'min_gap': rng.choice([0, 0, 1, 2, 3, 4, 5, 6, 8, 30, 200])}
 
@@ -127,6 +132,8 @@ def check(case, ctx):
     ctx.count('streams_drop' if prog['drop'] else 'streams_nondrop')
     if case['offset']:
         ctx.count('streams_with_offset')
+        if case['start_frame'] < case['offset'] * 30:
+            ctx.count('streams_beginning_before_the_offset')
     for g in gaps:
         ctx.count('gaps_closed' if g <= 4 else 'gaps_exactly_five_frames' if g == 5 else 'gaps_open')
     # flash cue: a displayed duration under 0.05 s (judged on the possible ends)
@@ -179,3 +186,20 @@ def check(case, ctx):
             fails.append({'what': 'captions not in transmission order', 'caption': i, 'doc': doc})
         prev_start = s
     return fails[:4]
+
+
+def classify(case, failure):
+    """Known finding: end == 0 is pycaption's 'no end yet' sentinel, so a caption whose start AND end are
+    floored at zero by the offset is ended like a never-cleared caption: at the next caption's start or after
+    four seconds."""
+    if failure.get('what', '').startswith('caption start/end is not the transmission instant') \
+            and case['offset'] and failure.get('expected_start') == 0.0 and failure.get('expected_end') == [0.0] \
+            and isinstance(failure.get('got'), list) and failure['got'][0] == 0 and failure['got'][1] > 0:
+        return 'scc-caption-cleared-before-the-offset-gets-a-later-end'
+    # ... and when that later end is the next caption's start a few frames after the offset, the caption is
+    # rejected as displayed for less than 0.05 s
+    if failure.get('what', '').startswith('timing error raised although no caption') and case['offset'] \
+            and any(m[0] == 0.0 and m[1] == [0.0] for m in failure.get('model', [])) \
+            and 'around 00:00:00.000' in failure.get('error', ''):
+        return 'scc-caption-cleared-before-the-offset-gets-a-later-end'
+    return None
